@@ -6,6 +6,7 @@ import PonyVerif.Drive.C01
 import PonyVerif.Model.SqlRender
 import PonyVerif.Drive.C25
 import PonyVerif.Model.TupleCmp
+import PonyVerif.Model.QTemporal
 namespace PonyVerif.Drive.C02
 open Lean PonyVerif.Drive PonyVerif.Model.Q
 
@@ -22,6 +23,19 @@ def handle (j : Json) : Except String Json := do
           | .ok s => Json.mkObj [("ok", .str (renderText d s))]
           | .error e => Json.mkObj [("unsupported", .str e)])
         pure (Json.mkObj [("ok", .arr outs.toArray)])
+  | "temporaltext" =>
+      -- SQLite: model text of the inline literal (C06's temporalStr) and of the bound parameter, for a value given by its fields
+      let kind ← argStr j "kind"
+      let f ← (← argArr j "f").mapM (fun x => match x with
+        | .num n => pure n.mantissa.toNat
+        | _ => throw "field")
+      let v ← (match kind, f with
+        | "date", [y, m, dd] => pure (PonyVerif.Model.SqlText.TVal.date ⟨y, m, dd⟩)
+        | "time", [h, mi, sec, us] => pure (PonyVerif.Model.SqlText.TVal.time ⟨h, mi, sec, us⟩)
+        | "datetime", [y, m, dd, h, mi, sec, us] => pure (PonyVerif.Model.SqlText.TVal.datetime ⟨y, m, dd⟩ ⟨h, mi, sec, us⟩)
+        | _, _ => throw "temporaltext: kind/fields")
+      let js : Option (List Char) → Json := fun o => match o with | some t => .str (String.ofList t) | none => .null
+      pure (Json.mkObj [("literal", js (PonyVerif.Model.SqlText.temporalStr .sqlite .qmark v)), ("param", js (sqliteParamText v))])
   | "checktuple" =>
       -- the real SQLite AST of `(a1,…,an) OP (b1,…,bn)` against the verified expansion (C02_tuple_checker_sound)
       let opn ← argStr j "cmp"
